@@ -58,18 +58,18 @@ def gen_case(rng, k, tier):
         nz = n                                                  # smallest admissible grid: nz = order + 1
     deg = 3 if kind == 'cu' else rng.choice([1, 2, 3, 4, 5])
     sp = ac.theta_space(rng, kind, nq, deg, uniform=(rng.random() < 0.5))
-    twist = 'no-twist' if k % 3 == 0 else 'twist'
+    twist = 'no-twist' if rng.random() < 0.35 else 'twist'
     iota = F(0) if twist == 'no-twist' else F(rng.choice([4, -13, 7, -3]), rng.choice([5, 10, 3]))
     dz = F(rng.randint(1, 9), rng.choice([2, 3, 5]))
     R0 = F(rng.choice([239, 100, 17]), rng.choice([1, 3]))
-    style = ['random', 'random', 'const', 'zindep'][k % 4]
+    style = rng.choice(['random', 'random', 'random', 'const', 'zindep'])
     cs = [ac.periodic_coeffs(rng, sp, 'const' if style == 'const' else 'random') for _ in range(nz)]
     if style in ('const', 'zindep'):
         cs = [cs[0]] * nz
     shifts, w, _ = exact_weights(n)
     return {'sp': sp, 'nq': nq, 'nz': nz, 'n': n, 'order': order, 'iota': iota, 'dz': dz, 'R0': R0, 'cs': cs, 'style': style, 'twist': twist,
             'kind': kind, 'k': k, 'bz': F(rng.randint(1, 20), 21), 'w': w, 'shifts': shifts,
-            'table': 'real' if k % 2 == 0 else 'arbitrary'}
+            'table': rng.choice(['real', 'real', 'arbitrary'])}
 
 
 def theta_table_exact(c):
@@ -471,15 +471,15 @@ def run():
         elif not same:
             chk.cov['disagreements_checked'] += 1
             chk.violation('%s:model-mismatch:order-%d:%s' % (site, c['order'], c['twist']),
-                          'exact output of the code differs from the model: %s / %s' % (impl[:100], m[:100]), replay, no_input=(c['op'] == 'grad'))
+                          'exact output of the code differs from the model: %s / %s' % (impl[:100], m[:100]), replay,
+                          no_input=(c['op'] == 'grad' and impl.startswith('ok')))
     # ---- real objects
     ocases = gen_object_cases(chk)
     ores = implrun.run_cases('props.c13', 'object_case', ocases, tmo=600.0, chunk=1)
     olines, oown = [], []
     for idx, (c, o) in enumerate(zip(ocases, ores)):
         if not isinstance(o, dict):
-            chk.violation('ParallelGradient:construction:order-%d' % c['order'], 'building / running the real object ended with %r' % (o,), {'case': c},
-                          no_input=True)
+            chk.violation('ParallelGradient:construction:order-%d' % c['order'], 'building / running the real object ended with %r' % (o,), {'case': c})
             continue
         ls = object_lines(c, o)
         olines += ls
